@@ -109,6 +109,9 @@ def run(ctx: Ctx) -> None:
             if L:
                 pts += [L - 1, L, L + 1, L + 3_000_000, 2 * L + 2_999_999, 2 * L + 3_000_000, 2 * L + 3_000_001, 10 * L]
             times = sorted(rng.choice(pts) + rng.choice([0, 0, 1, -1, rng.randrange(0, 1000)]) for _ in range(rng.randint(1, 6)))
+            if _ == 0 and L:
+                times = [0, L + 2, L - 3_000_000, 2 * L + 3_000_000, 2 * L + 3_000_001]   # first tested at the very instant of the packet (a replay's clock), then a clock 3 s - L behind: fractions -3 s / L and -1
+                times = [t for t in times if t >= 0 or L > 3_000_000]
             if rng.random() < 0.3:
                 rng.shuffle(times)  # a clock that jumps backwards
             clock = {"now": T0}
@@ -240,8 +243,10 @@ async def end_to_end(ctx: Ctx, trials: int) -> None:
         add(f"RP --- {CTL} {GW} --:------ 0005 004 00080F00")
         exp_temp, exp_sp, when_temp = {}, {}, {}
         for _ in range(rng.randint(5, 40)):
-            k = rng.choice(["arr30", "one30", "arr23", "one23", "2349", "other", "dev30", "rq", "w"])
-            if k == "arr30":
+            k = rng.choice(["arr30", "one30", "one30", "arr23", "one23", "2349", "other", "dev30", "rq", "w", "jump"])
+            if k == "jump":      # hours pass between readings: later one zone's reading is stale while its sibling's is fresh
+                t += td(seconds=rng.choice([1700, 3000, 3700, 5400, 7300]))
+            elif k == "arr30":
                 zs = sorted(rng.sample(range(4), rng.randint(2, 4)))
                 pl = ""
                 for z in zs:
@@ -296,12 +301,15 @@ async def end_to_end(ctx: Ctx, trials: int) -> None:
             await asyncio.sleep(0)
         zones = {int(z.idx, 16): z for z in g.tcs.zones} if g.tcs else {}
         now = g._dt_now()
+        spans = {}     # every zone's lifespan is looked up BEFORE anything is read: reading one zone must not disturb its siblings
+        for z in range(4):
+            m = zones[z]._msgs.get("30C9") if z in zones else None
+            spans[z] = m._pkt._lifespan if m else None
         for z in range(4):
             if z not in zones or z not in when_temp:
                 continue
             wt, form = when_temp[z]
-            m = zones[z]._msgs.get("30C9")
-            L = m._pkt._lifespan if m else None
+            L = spans[z]
             age = now - wt
             first = zones[z].temperature
             await asyncio.sleep(0)
